@@ -143,18 +143,22 @@ Definition spec_negotiate (h : option str) : option str :=
   end.
 
 (* ---- driver entry ----
-   case = [records; invalid chars; queries [[uri; is_pred]]; headers [opt str]]
+   case = [records; invalid chars; queries [[uri; is_pred]]; headers [opt str];
+           per query: what converter.expand_all(converter.compress(uri)) answers on the implementation (None when compress gives None)
+           -- the property is stated relative to these two methods]
    obs  = [per query: [answers with ?s bound, VALUES inside; ?s bound, VALUES after; ?o bound inside; ?o bound after] (each sorted);
            per header: negotiated type] *)
-Record scase := { sc_recs : list record; sc_invalid : str; sc_queries : list (str * bool); sc_headers : list (option str) }.
+Record scase := { sc_recs : list record; sc_invalid : str; sc_queries : list (str * bool); sc_headers : list (option str);
+                  sc_renderings : list (option (list str)) }.
 Definition as_query_entry (v : val) : option (str * bool) :=
   match v with VList [VStr u; VInt b] => Some (u, negb (Z.eqb b 0)) | _ => None end.
 Definition decode_scase (v : val) : option scase :=
   match v with
-  | VList [rs; VStr inv; qs; hs] =>
-      match as_records rs, as_list_of as_query_entry qs, as_list_of (as_opt as_str) hs with
-      | Some rs', Some qs', Some hs' => Some {| sc_recs := rs'; sc_invalid := inv; sc_queries := qs'; sc_headers := hs' |}
-      | _, _, _ => None end
+  | VList [rs; VStr inv; qs; hs; rd] =>
+      match as_records rs, as_list_of as_query_entry qs, as_list_of (as_opt as_str) hs, as_list_of (as_opt as_strs) rd with
+      | Some rs', Some qs', Some hs', Some rd' =>
+          Some {| sc_recs := rs'; sc_invalid := inv; sc_queries := qs'; sc_headers := hs'; sc_renderings := rd' |}
+      | _, _, _, _ => None end
   | _ => None
   end.
 Definition inv_of (k : scase) : chr -> bool := fun c => existsb (N.eqb c) (sc_invalid k).
@@ -164,20 +168,21 @@ Definition spec_equivalents (inv : chr -> bool) (rs : list record) (u : str) : l
   | Some (p, r) => filter (valid_uri inv) (map (fun up => up ++ skipn (length p) u) (all_uris r))
   | None => []
   end.
+(* the answer the property demands, given what expand_all(compress(u)) answers *)
+Definition rel_answer (inv : chr -> bool) (is_pred : bool) (rendering : option (list str)) : list str :=
+  if is_pred then match rendering with Some l => filter (valid_uri inv) l | None => [] end else [].
 Definition model_sobs (k : scase) : val :=
-  match mk_conv true [58%N] (sc_recs k) with
-  | Raise _ => VList [VInt (-3)]
-  | Val c =>
-      VList [VList (map (fun q => let a := vsorted (triples_for (inv_of k) c (snd q) (fst q)) in VList [a; a; a; a]) (sc_queries k));
-             VList (map (fun h => vopt VStr (negotiate h)) (sc_headers k))]
-  end.
+  VList [VList (map (fun qr : (str * bool) * option (list str) =>
+                       let a := vsorted (rel_answer (inv_of k) (snd (fst qr)) (snd qr)) in VList [a; a; a; a])
+                    (combine (sc_queries k) (sc_renderings k)));
+         VList (map (fun h => vopt VStr (negotiate h)) (sc_headers k))].
 Definition P_C18 (k : scase) (o : val) : bool :=
   match o with
   | VList [VList qa; VList ha] =>
       Nat.eqb (length qa) (length (sc_queries k)) && Nat.eqb (length ha) (length (sc_headers k)) &&
-      forallb (fun qa : (str * bool) * val => let '(q, a) := qa in
-                 let expected := vsorted (if snd q then spec_equivalents (inv_of k) (sc_recs k) (fst q) else []) in
-                 val_eqb a (VList [expected; expected; expected; expected])) (combine (sc_queries k) qa)
+      forallb (fun qa : ((str * bool) * option (list str)) * val => let '(qr, a) := qa in
+                 let expected := vsorted (rel_answer (inv_of k) (snd (fst qr)) (snd qr)) in
+                 val_eqb a (VList [expected; expected; expected; expected])) (combine (combine (sc_queries k) (sc_renderings k)) qa)
       && forallb (fun ha : option str * val => let '(h, a) := ha in val_eqb a (vopt VStr (spec_negotiate h))) (combine (sc_headers k) ha)
   | _ => false
   end.
@@ -187,7 +192,8 @@ Definition header_ok (h : option str) : bool :=
   | Some hs => forallb (fun c => ((33 <=? c) && (c <=? 126) || is_ows c)%N) hs
                && match header_items hs with Some _ => true | None => false end
   end.
-Definition valid_s (k : scase) : bool := strict_okb (sc_recs k) && forallb header_ok (sc_headers k).
+Definition valid_s (k : scase) : bool :=
+  forallb header_ok (sc_headers k) && Nat.eqb (length (sc_renderings k)) (length (sc_queries k)).
 Definition run_mapping (case obs : val) : val :=
   match decode_scase case with
   | None => VList [VInt (-1)]
